@@ -3,6 +3,9 @@
    bound is part of the statement.  M = Model/SccWord.v over the tables regenerated from the source
    (Gen/SccTables.v), S = Spec/Cea608Words.v (bit-layout decoder, no shared table). *)
 From TT Require Import Base.Prelude Base.SccTypes Model.SccWord Spec.Cea608Words Proofs.C17.Decode.
+(* second tie: Gen/SccWordSrc.v is regenerated from ttconv/scc/word.py by harness/pytrans_scc.py on every run, over
+   Base/PyNum.v and the externs of Model/SccWordExt.v (the calls into scc/codes/*.py); see the last section *)
+From TT Require Import Base.PyNum Model.SccWordExt Gen.SccWordSrc Proofs.C17.SrcRefines.
 
 Theorem C17_class_exactly_one : forall w, 0 <= w < 65536 -> exists! c, 0 <= c <= 8 /\ d_cls (decode w) = c.
 Proof. exact class_exactly_one. Qed.
@@ -32,3 +35,39 @@ Proof. vm_compute. repeat split. Qed.
 Print Assumptions C17_class_exactly_one.  Print Assumptions C17_parity_irrelevant.
 Print Assumptions C17_overlap_free.  Print Assumptions C17_decode_spec_partial.
 Print Assumptions C17_channel1_only.  Print Assumptions C17_pac_range.
+
+(* ==================================================================================================
+   The model regenerated from the current ttconv/scc/word.py refines to M.  src_word w wd: SccWord.from_value(w)
+   returns the word object wd; src_view wd: the decoded view read off wd through get_code / get_channel /
+   to_text / is_code as the harness reads it off the Python object.  Finite domain, decided in the kernel for all
+   65 536 values (bound in the statement); range checks and the parity mask also for unbounded integers.     *)
+Theorem C17_source_refines : forall w, 0 <= w < 65536 ->
+  exists wd, src_word w wd /\ src_view wd = decode w /\
+    SccWord_byte_1 wd = inj (byte1 w) /\ SccWord_byte_2 wd = inj (byte2 w) /\ SccWord_value wd = inj (value w) /\
+    src_is_code wd = is_code (byte1 w) /\ src_to_text wd = to_text w.
+Proof. exact src_refines. Qed.
+Theorem C17_source_refines_from_value_range : forall w, 65535 < w -> src_from_value (inj w) = Raise ValueError.
+Proof. exact src_from_value_range. Qed.
+Theorem C17_source_refines_from_bytes_range : forall a b, 255 < a \/ 255 < b -> src_from_bytes (inj a) (inj b) = Raise ValueError.
+Proof. exact src_from_bytes_range. Qed.
+Theorem C17_source_refines_parity_bit : forall b, src_decipher_parity_bit (inj b) = inj (Z.land b Gen.SccTables.parity_mask).
+Proof. exact src_decipher_parity_bit_refines. Qed.
+Theorem C17_source_refines_from_bytes : forall a b, a <= 255 -> b <= 255 ->
+  exists wd, src_from_bytes (inj a) (inj b) = Ok wd /\ SccWord_byte_1 wd = inj (Z.land a 127) /\
+    SccWord_byte_2 wd = inj (Z.land b 127) /\ SccWord_value wd = inj (Z.land a 127 * 256 + Z.land b 127) /\
+    src_is_code wd = is_code (Z.land a 127).
+Proof. exact src_from_bytes_fields. Qed.
+(* headline theorems restated about the regenerated model *)
+Theorem C17_src_parity_irrelevant : forall w, 0 <= w < 65536 ->
+  exists wd wd', src_word w wd /\ src_word (Z.land w 32639) wd' /\ src_view wd = src_view wd'.
+Proof. exact src_parity_irrelevant. Qed.
+Theorem C17_src_decode_spec_partial : forall w, 0 <= w < 65536 -> trigger_caret w = false ->
+  exists wd, src_word w wd /\ spec_ok w (src_view wd) = true.
+Proof. exact src_decode_spec. Qed.
+Example C17_src_example : exists wd, src_word 5152 wd /\ d_cls (src_view wd) = cControl /\ d_chan (src_view wd) = 1.
+Proof. destruct (src_refines 5152) as (wd & H & V & _); [lia|]. exists wd. rewrite V. vm_compute. repeat split. exact H. Qed.
+
+Print Assumptions C17_source_refines.  Print Assumptions C17_source_refines_from_value_range.
+Print Assumptions C17_source_refines_from_bytes_range.  Print Assumptions C17_source_refines_parity_bit.
+Print Assumptions C17_source_refines_from_bytes.  Print Assumptions C17_src_parity_irrelevant.
+Print Assumptions C17_src_decode_spec_partial.
